@@ -209,29 +209,42 @@ Definition run_deser (s : bytes) : obs :=
 Definition run_store (d : tagdict) : obs :=
   match deserialize (serialize d) with Some d' => odict_sorted d' | None => OE "error" end.
 
-(* how a destination keeps the dict handed to _set_tag_dict, as read back by get_tag_dict:
+(* how a destination that held [old] keeps the dict [d] handed to _set_tag_dict, as read back by
+   get_tag_dict:
      DMem     MemoryTags._set_tag_dict: dict(result.items())
      DNative  BasicTags: through the bencode tags file
-     DGit cs  LocalGitTagDict._set_tag_dict: set_tag per entry, where a revision id that is not a
-              commit of the repository (cs = its commits) raises GhostTagsNotSupported, which
-              _set_tag_dict SUPPRESSES: such a tag is silently not stored
-              (known finding C24-git-ghost-tag-reported-not-stored) *)
+     DGit cs  LocalGitTagDict._set_tag_dict: every name of [d] is first taken off the list of refs to
+              delete, then set_tag runs per entry; a revision id that is not a commit of the
+              repository (cs = its commits) raises GhostTagsNotSupported, which _set_tag_dict
+              SUPPRESSES: the ref keeps its OLD value if the name existed, else nothing is stored
+              (known finding C24-git-ghost-tag-reported-not-stored); refs of [old] whose name is
+              not in [d] are deleted *)
 Inductive dest_store : Type := DMem | DNative | DGit (commits : list bytes).
 
 Definition git_keeps (commits : list bytes) (kv : bytes * bytes) : bool :=
   existsb (bytes_eqb (snd kv)) commits.
 
-Definition stored (ds : dest_store) (d : tagdict) : option tagdict :=
+Definition git_set_entry (commits : list bytes) (old : tagdict) (kv : bytes * bytes) : tagdict :=
+  if git_keeps commits kv then [kv]
+  else match dict_get bytes_eqb old (fst kv) with
+       | Some w => [(fst kv, w)]
+       | None => []
+       end.
+Definition git_set (commits : list bytes) (old d : tagdict) : tagdict :=
+  flat_map (git_set_entry commits old) d.
+
+Definition stored (ds : dest_store) (old d : tagdict) : option tagdict :=
   match ds with
   | DMem => Some d
   | DNative => deserialize (serialize d)
-  | DGit commits => Some (filter (git_keeps commits) d)
+  | DGit commits => Some (git_set commits old d)
   end.
 
 (* a master branch exists only for bound native branches *)
-Definition transfer_obs (ds : dest_store) (out : tagdict * option tagdict * tagdict * list conflict) : obs :=
+Definition transfer_obs (ds : dest_store) (dst : tagdict)
+                        (out : tagdict * option tagdict * tagdict * list conflict) : obs :=
   let '(r, m, u, c) := out in
-  match stored ds r, match m with Some md => option_map Some (stored DNative md) | None => Some None end with
+  match stored ds dst r, match m with Some md => option_map Some (stored DNative [] md) | None => Some None end with
   | Some r', Some m' =>
       OL [odict_sorted r'; oopt odict_sorted m'; odict_sorted u; OL (map oconf (sort_confs c))]
   | _, _ => OE "error"
@@ -245,7 +258,7 @@ Inductive merge_kind : Type :=
 
 Definition run_transfer (mk : merge_kind) (ds : dest_store) (src dst : tagdict) (master : option tagdict)
                         (ignore_master ov : bool) (sel : option (bytes -> bool)) : obs :=
-  transfer_obs ds
+  transfer_obs ds dst
     match mk with
     | MInter => merge_inter src dst master ignore_master ov sel
     | MMem => merge_memsrc src dst master ignore_master ov sel
